@@ -104,6 +104,9 @@ class LoopRuntime:
 
     def _env(self, loc, it=None, k=None):
         env = dict(loc)
+        # ghost inputs of the contract under verification are visible to its loop contracts
+        for nm, v in ctx().ghost.get("caller_args", {}).items():
+            env.setdefault(nm, v)
         if it is not None:
             env["_seq"] = it
             env["_k"] = k
@@ -142,12 +145,10 @@ class LoopRuntime:
         c.check(inv, f"loop-inv-entry:{key}", kind="loop-entry")
         # heap havoc
         if spec.modifies is not None:
+            from .engine import havoc_location
+
             for locn in call_by_name(spec.modifies, env):
-                if isinstance(locn, tuple):
-                    obj, attr = locn
-                    setattr(obj, attr, fresh_like(getattr(obj, attr), attr))
-                else:
-                    locn.havoc_inplace()
+                havoc_location(locn)
 
     def havoc(self, key, name, cur):
         spec = self._spec(key)
